@@ -58,7 +58,7 @@ func main() {
 	}
 	if *describe {
 		b, _ := json.Marshal(map[string]any{"id": s.ID, "level": s.Level, "rule": s.Rule, "real": s.Real, "stub": s.Stub,
-			"assume": s.Assume, "runs": s.Runs, "map_sched": s.MapSched})
+			"assume": s.Assume, "runs": s.Runs, "map_sched": s.MapSched, "timeout_sec": s.TimeoutSec})
 		fmt.Println(string(b))
 		return
 	}
